@@ -197,9 +197,9 @@ CATALOGUE = {
     "IdentityMapping": ([1, 2, 3], {}, 0.6),
     "AffineMapping": ([1, 2, 3], {"c1": (1, 2), "c2": (-1, 3), "c3": (2, 1), "a11": (2, 1), "a12": (1, 2), "a13": (1, 4),
                                   "a21": (-1, 3), "a22": (3, 1), "a23": (-1, 2), "a31": (1, 5), "a32": (2, 3), "a33": (5, 2)}, 1.0),
-    "PolarMapping": ([2], {"c1": (0, 1), "c2": (1, 2), "rmin": (1, 2), "rmax": (3, 2)}, 1.5),
+    "PolarMapping": ([2], {"c1": (0, 1), "c2": (1, 2), "rmin": (1, 2), "rmax": (3, 2)}, 4.0),
     "TargetMapping": ([2], {"c1": (0, 1), "c2": (0, 1), "k": (3, 10), "D": (1, 5)}, 2.5),
-    "CollelaMapping2D": ([2], {"eps": (1, 10), "k1": (1, 1), "k2": (1, 1)}, 3.0),
+    "CollelaMapping2D": ([2], {"eps": (1, 10), "k1": (1, 1), "k2": (1, 1)}, 6.0),
     "CzarnyMapping": ([2], {"c2": (0, 1), "eps": (1, 4), "b": (7, 5)}, 30.0),
     "TorusMapping": ([3], {"R0": (3, 1)}, 6.0),
     "SphericalMapping": ([3], {}, 6.0),
@@ -434,7 +434,7 @@ def gen_case(rng, tier, dim):
 
 
 def est_cost(c):
-    base = {1: 0.3, 2: 1.5, 3: 14.0}[c["dim"]]
+    base = {1: 0.3, 2: 1.5, 3: 22.0}[c["dim"]]
     m = c["mapping"]
     f = 1.0
     if m["type"] == "catalogue":
@@ -733,7 +733,7 @@ def main(run, replay=None):
     import os
     if os.environ.get("C03_DEBUG"):
         json.dump([{"case": c, "code": code.get(i), "out": (r or {}).get("out"), "in": (r or {}).get("in"),
-                    "oracle": (r or {}).get("oracle"), "mapexprs": (r or {}).get("mapexprs")} for i, (c, r) in enumerate(zip(cases, results))],
+                    "oracle": (r or {}).get("oracle"), "mapexprs": (r or {}).get("mapexprs"), "secs": (r or {}).get("secs"), "est": est_cost(c)} for i, (c, r) in enumerate(zip(cases, results))],
                   open(os.environ["C03_DEBUG"], "w"))
         for x, r in zip(json.load(open(os.environ["C03_DEBUG"])), results):
             pass
